@@ -23,6 +23,17 @@ inline void *env_alloc(size_t n, bool nothrow) {
     if (nothrow) return nullptr;
     throw std::bad_alloc();
   }
+  if (e.arena_mode && e.arena_base) {
+    const size_t need = (n + 15) & ~size_t(15);
+    if (e.arena_used + need > e.arena_size) {
+      if (nothrow) return nullptr;
+      throw std::bad_alloc();
+    }
+    char *q = e.arena_mode == 1 ? e.arena_base + e.arena_used : e.arena_base + e.arena_size - e.arena_used - need;
+    e.arena_used += need;
+    if (e.fill >= 0) memset(q, e.fill, n);
+    return q;
+  }
   void *p = malloc(n ? n : 1);
   if (!p) {
     if (nothrow) return nullptr;
@@ -41,6 +52,7 @@ inline void env_free(void *p) {
   if (!p) return;
   AllocEnv &e = alloc_env();
   if (e.hook) e.hook(1, 0);
+  if (e.arena_base && static_cast<char *>(p) >= e.arena_base && static_cast<char *>(p) < e.arena_base + e.arena_size) return;
   if (e.monitor) e.live -= (int64_t)malloc_usable_size(p);
   free(p);
 }
